@@ -64,10 +64,15 @@ OptToggles == << <<"spans", TRUE>>, <<"dim", TRUE>>, <<"tn", FALSE>>, <<"ent", "
                  <<"applynf", "absent">>, <<"dense", TRUE>>, <<"rowr", FALSE>>,
                  <<"indent", TRUE>>,     \* insignificant white space between the elements inside <row>, <c>, <is>, <r>, <si>
                  <<"nosp", TRUE>> >>     \* no xml:space="preserve" anywhere: outer white space of a text is unprotected
-AttrDefault == [sheet |-> "Sheet1", ext |-> "", loc |-> "", dname |-> "", tcol |-> ""]
-Channels == <<"sheet", "ext", "loc", "dname", "tcol">>
+AttrDefault == [sheet |-> "Sheet1", ext |-> "", loc |-> "", both |-> "", tip |-> "", dname |-> "", tcol |-> ""]
+(* hyperlink channels: ext = a link with r:id only (A1), loc = a link with location only (B1), both = a link with r:id
+   AND location, an external URL with a fragment (A2; and a second one on C3), tip = tooltip and display text of every
+   link of the file *)
+Channels == <<"sheet", "ext", "loc", "both", "tip", "dname", "tcol">>
 AttrPool == {"A&B", "<x> y", "it's", "q\"q", "a&amp;b"}
 ChannelPool(ch) == CASE ch = "dname" -> {"N.1", "_x\\y"}
+                     [] ch = "both"  -> {"section-2", "'A&B'!A1", "a<b>\"c\""}
+                     [] ch = "tip"   -> {"tip & <tool> \"q\"", "plain tip"}
                      [] ch = "loc"   -> {"'A&B'!A1", "'it''s <1>'!$B$2", "Sheet1!A1"}
                      [] OTHER        -> AttrPool
 
@@ -153,9 +158,13 @@ MCNext == SetOpt \/ SetXmlSpace \/ AddSstItem \/ AddCell \/ AddSharedBlock \/ Ad
 MCSpec == MCInit /\ [][MCNext]_gvars
 
 (* ---- the file model for pydec/build_xlsx.py --------------------------------------- *)
-Link(r, c, isExt, val) == [r |-> r, c |-> c, ext |-> isExt, val |-> val]
-Links(f) == (IF f.attrs.ext = "" THEN << >> ELSE << Link(1, 1, TRUE, "http://h.example/?q=" \o f.attrs.ext) >>)
-            \o (IF f.attrs.loc = "" THEN << >> ELSE << Link(1, 2, FALSE, f.attrs.loc) >>)
+Link(r, c, isExt, val, hasloc, loc, tip) ==
+  [r |-> r, c |-> c, ext |-> isExt, val |-> val, hasloc |-> hasloc, loc |-> loc, tip |-> tip, disp |-> tip]
+Links(f) == (IF f.attrs.ext = "" THEN << >> ELSE << Link(1, 1, TRUE, "http://h.example/?q=" \o f.attrs.ext, FALSE, "", f.attrs.tip) >>)
+            \o (IF f.attrs.loc = "" THEN << >> ELSE << Link(1, 2, FALSE, "", TRUE, f.attrs.loc, f.attrs.tip) >>)
+            \o (IF f.attrs.both = "" THEN << >>
+                ELSE << Link(2, 1, TRUE, "https://example.com/docs/page.html?x=1&y=2", TRUE, f.attrs.both, f.attrs.tip),
+                        Link(3, 3, TRUE, "https://example.com/other?" \o f.attrs.both, TRUE, "top", "") >>)
 Model(f) ==
   [sheets |-> << [name |-> f.attrs.sheet, cells |-> DocOrder(f), links |-> Links(f),
                   tcols |-> IF f.attrs.tcol = "" THEN <<>> ELSE <<f.attrs.tcol, "plain">>] >>,
